@@ -72,6 +72,32 @@ fn keep_fails(full: &str, prefix: &str, map_out: impl Fn(&str) -> String) -> Str
     }
     s
 }
+/// `(bldrop CAP ROUNDS)`: "the whole pending (older) queue is DISCARDED" — the items of a truncated queue are released,
+/// not kept somewhere until a receiver happens to run. A receiver that exists but never runs, (CAP + 1) · ROUNDS plain
+/// sends of reference-counted items; output `live=N`, the number of items still alive afterwards (the model: what is
+/// pending); oracle c09-truncated-items-kept-alive.
+fn run_drop(line: &str) -> Option<String> {
+    let s = Sexp::parse(line)?;
+    let (tag, a) = s.as_tagged()?;
+    if tag != "bldrop" || a.len() != 2 {
+        return None;
+    }
+    let (cap, rounds) = (a[0].as_usize()?, a[1].as_usize()?);
+    if cap == 0 || cap > 64 || rounds == 0 || rounds > 20 {
+        return None;
+    }
+    let (sender, receiver): (Sender<Vec<Arc<()>>>, Receiver<Vec<Arc<()>>>) = emit_batcher::bounded(cap);
+    let mut weak = Vec::new();
+    for _ in 0..(cap + 1) * rounds {
+        let item = Arc::new(());
+        weak.push(Arc::downgrade(&item));
+        sender.send(item);
+    }
+    let live = weak.iter().filter(|w| w.strong_count() > 0).count();
+    drop(receiver);
+    let out = format!("live={}", live);
+    Some(if live <= cap { out } else { format!("{}\tFAIL:c09-truncated-items-kept-alive", out) })
+}
 fn run_c07(line: &str) -> String {
     keep_fails(&run_blocking(line), "c07", |o| o.to_string())
 }
@@ -142,6 +168,7 @@ fn gen_flush(rng: &mut Rng, tier: Tier, n: usize) -> Vec<String> {
 }
 fn gen_send(rng: &mut Rng, tier: Tier, n: usize) -> Vec<String> {
     let mut v = refill_cases();
+    v.extend(["(bldrop 1 3)", "(bldrop 3 2)", "(bldrop 8 4)"].iter().map(|s| s.to_string()));
     v.extend(spurious_cases(&["send"]));
     v.extend(gen_blocking(rng, tier, n, &["send"]));
     v
@@ -779,6 +806,9 @@ fn run_blocking_inner(line: &str) -> String {
     }
     if line.starts_with("(blslow") {
         return run_slow(line).unwrap_or_else(|| "bad-case".into());
+    }
+    if line.starts_with("(bldrop") {
+        return run_drop(line).unwrap_or_else(|| "bad-case".into());
     }
     let Some(c) = parse(line) else {
         return "bad-case".into();
